@@ -143,9 +143,19 @@ def resolve_faults(faults, twin, bufsize=4096):
             else:
                 at = f.get("at_byte", 0)
             c["at_byte"] = max(0, min(at, max(0, n - 1)))
-        elif op in ("interrupt", "memerror", "kill"):
+        elif op in ("interrupt", "memerror", "kill", "powerloss"):
             n = max(1, twin.get("steps", 1))
-            c["at_step"] = max(1, min(n, (n * f["permille"]) // 1000))
+            if "after_own_write" in f:
+                # right after the k-th time one of the tool's own files reached the disk (a flush
+                # of a cache, a log, a staging file): the instant at which a crash leaves a file
+                # that is neither the old nor the new one.  A tool that writes no files has no
+                # such instant: the fault is dropped.
+                ws = twin.get("overlay_write_steps") or []
+                if not ws:
+                    continue
+                c["at_step"] = max(1, min(n, ws[f["after_own_write"] % len(ws)] + int(f.get("delay", 1))))
+            else:
+                c["at_step"] = max(1, min(n, (n * f["permille"]) // 1000))
         out.append(c)
     return out
 
@@ -662,6 +672,15 @@ class _OverlayRaw(io.RawIOBase):
         self._w = writable
         self._append = append
         self._pos = 0
+        self._fd = None
+
+    def fileno(self):
+        # a descriptor number of its own, so that the tool can fsync() its file
+        if self._fd is None:
+            self._sim._next_fake_fd += 1
+            self._fd = self._sim._next_fake_fd
+            self._sim.overlay_fds[self._fd] = self._inode
+        return self._fd
 
     def readable(self):
         return self._r
@@ -682,6 +701,7 @@ class _OverlayRaw(io.RawIOBase):
 
     def write(self, b):
         self._sim.syscall()
+        self._sim.overlay_write_steps.append(self._sim.steps)
         data = bytes(b)
         d = self._inode.data
         if self._append:
@@ -755,6 +775,10 @@ class Sim:
         self.open_writers = []
         self.raw_stdout = None
         self.yields = 0
+        self.overlay_write_steps = []  # step numbers at which the tool's own files reached "disk"
+        self.synced_files = set()  # overlay files the tool has fsync()ed (not tracked per byte)
+        self.overlay_fds = {}  # fake descriptor number -> inode, for fsync() of the tool's own files
+        self.synced_inodes = set()
         self.pause_at = None
         self.parked = None
         self.resume = None
@@ -776,7 +800,9 @@ class Sim:
         # piece straight to the descriptor and ignores the count that comes back, so nothing below
         # the tool absorbs them: the tool has to, or must fail loudly.)
         self.write_faults = [f for f in self.faults if f["op"] == "write"]
-        self.step_faults = [f for f in self.faults if f["op"] in ("interrupt", "memerror", "kill")]
+        self.step_faults = [f for f in self.faults if f["op"] in ("interrupt", "memerror", "kill", "powerloss")]
+        # what the tool's own files looked like when this process started (for `powerloss`)
+        self._files_at_start = {p: bytes(i.data) for p, i in self.overlay.inodes.items()}
         self.kill_snapshot = None
         self.next_step_fault = None
         self.arm_step_faults()
@@ -1257,6 +1283,11 @@ class Sim:
         return _TRUE["close"](fd)
 
     def sim_fsync(self, fd):
+        if fd in self.overlay_fds:
+            self.syscall()
+            self.synced_inodes.add(id(self.overlay_fds[fd]))
+            self.log("fsync_own_file")
+            return None
         if self.is_fd1(fd) and self.raw_stdout is not None:
             self.log("fsync_fd1")
             self.raw_stdout.descriptor_closed(how="fsync")
@@ -1349,7 +1380,7 @@ class Sim:
             # Raised asynchronously in this very thread (like a signal handler would), not from
             # the trace function itself: an exception escaping a trace function switches tracing
             # off, and the step budget must stay armed for the rest of the run.
-            if f["op"] == "kill":
+            if f["op"] in ("kill", "powerloss"):
                 # What is on "disk" at this instant is all that survives: files the tool has
                 # closed, plus - for files it still has open - whole 8 KiB blocks of what it wrote
                 # (CPython's file buffer; the unflushed tail dies with the process).  Whatever the
@@ -1358,6 +1389,19 @@ class Sim:
                 # Python-level buffers of files the tool has open have *not* reached the inode and
                 # die with the process; everything that has, stays.
                 self.kill_snapshot = self.overlay.snapshot()
+                if f["op"] == "powerloss":
+                    # The machine goes down, not just the process: what the tool wrote during this
+                    # run and never fsync()ed is in the page cache.  Of such a file whole 4 KiB
+                    # blocks from the start survive (here: all of them but the last, partial one);
+                    # a file renamed into place without an fsync keeps its new name all the same.
+                    files, mtimes, removed, dirs = self.kill_snapshot
+                    files = dict(files)
+                    for path, data in list(files.items()):
+                        node = self.overlay.inodes.get(path)
+                        if self._files_at_start.get(path) != data and path not in self.synced_files and id(node) not in self.synced_inodes:
+                            files[path] = data[: (len(data) // 4096) * 4096]
+                            self.probe("powerloss_truncated_unsynced_file")
+                    self.kill_snapshot = (files, mtimes, removed, dirs)
                 if any(not w.closed for w in self.open_writers):
                     self.probe("torn_write_of_tool_file")
                 exc = SimKilled
@@ -1725,6 +1769,7 @@ class Sim:
             "repo_writes": self.repo_writes,
             "lines_hit": sorted(self.lines_hit),
             "yields": self.yields,
+            "overlay_write_steps": list(self.overlay_write_steps),
             "overlay_digest": self.overlay.digest(),
             "overlay_files": sorted(self.relproj(f) or f for f in self.overlay.inodes),
             "probes": self.probes,
@@ -1799,6 +1844,7 @@ def footprint(res):
         "listed": res["listed"],
         "out_len": res["out_len"],
         "steps": res["steps"],
+        "overlay_write_steps": res.get("overlay_write_steps", []),
     }
 
 
